@@ -1,5 +1,6 @@
 """C07 — whitespace and comments between tokens never change the parse."""
 import json
+import re
 from common import *
 from lexlib import *
 from corpus import corpus
@@ -15,8 +16,19 @@ def ws_cases(run):
     for f in FRAGMENTS + INTERESTING:
         if f.strip() == "" or "\n" in f or "--" in f or f in ("#", "//", "/*", "*/", "/*/"):
             continue
+        pieces = ["SELECT", "a", f, "x", ",", f, "1", "y"]
+        sql, gaps, pos = "", [], 0
+        for i, pc in enumerate(pieces):
+            if i:
+                gaps.append([pos, pos + 1])
+                pos += 1
+            pos += len(pc)
+        sql = " ".join(pieces)
+        # the blanks between the pieces separate tokens by construction when the fragment cannot open a literal or a comment
+        safe = re.fullmatch(r"[A-Za-z0-9_@:.,+*%<>=!~^&|?]+|-|/", f) is not None
         for d in (DIALECTS if run.tier == "thorough" else run.rng.sample(DIALECTS, 5)):
-            cases.append({"dialect": d, "sql": "SELECT a " + f + " x , " + f + " 1 y", "seed": run.rng.randrange(1 << 30), "max": 60 if run.tier == "thorough" else 24})
+            cases.append({"dialect": d, "sql": sql, "seed": run.rng.randrange(1 << 30), "max": 60 if run.tier == "thorough" else 24,
+                          "gaps": gaps if safe else []})
     n_directed = len(cases)
     for e in corpus():
         if "stdin" in e["sql"].lower():
